@@ -284,7 +284,7 @@ def harnesses(tier):
     # state kept inside the store object between calls (caches, counters): sequences of the writes that take
     # no target id, on one store object, from a loaded bucket
     for bk in bks:
-        for L in ([3] if tier == "quick" or bk == "peewee" else [3, 4]):
+        for L in ([3, 4] if (tier != "quick" and bk == "memory") else [3]):  # (L=4 on sqlite / peewee: beyond half an hour each — not claimed)
             hops = ["bulk1", "replace_last"] if (bk == "peewee" and tier == "quick") else ["insert", "bulk1", "replace_last"]
             hs.append((Harness(PROP, "%s-history-L%d-from-1-event-untargeted-writes" % (bk, L), h_history, dict(bk=bk, L=L, pre=1, hops=hops),
                                "%s backend: every sequence of %d operations out of %s (bulk1 = a list of one new event) on one store object, from a bucket already holding one event" % (bk, L, " / ".join(hops)), split_depth=8), 3600))
@@ -292,8 +292,8 @@ def harnesses(tier):
         for seq in (["read1", "bulk2", "replace_last"], ["replace_last", "bulk2", "replace_last"], ["replace_last", "bulk2", "insert", "replace_last"], ["insert", "bulk2", "replace_last"]):
             if tier == "quick" and seq not in (["replace_last", "bulk2", "replace_last"], ["read1", "bulk2", "replace_last"]):
                 continue
-            if bk == "peewee" and len(seq) > 3:
-                continue
+            if bk == "peewee" and seq not in (["replace_last", "bulk2", "replace_last"], ["read1", "bulk2", "replace_last"]):
+                continue  # (8 minutes each on peewee)
             hs.append((Harness(PROP, "%s-sequence-%s-from-1-event" % (bk, "-".join(seq)), h_history, dict(bk=bk, L=len(seq), pre=1, fixed=seq),
                                "%s backend: the sequence %s (every replace_last preceded by its limit-1 read) on one store object and one Bucket object, from a bucket holding one event; contents symbolic" % (bk, " / ".join(seq)), split_depth=8), 1800))
     return hs
@@ -307,7 +307,7 @@ def meta(chk, tier):
         "instants multiples of 1 ms in [1970, ~2103] (ties allowed), durations integer microseconds in [0, 24 h] (zero-length allowed), data {'tag': t} with t in 0..2",
         "one operation per run (inductive step over an arbitrary valid state); operations: " + ", ".join(OPS),
         "whole histories from the empty store: L = 2 (quick), 3 (thorough, memory) operations out of insert, bulk insert of 2, replace, one-element upsert, replace_last, delete",
-        "sequences of 3 (thorough: 4; peewee 3) untargeted writes (insert, bulk insert of a one-element list, replace_last; peewee in the quick tier without the plain insert) on one store object from a bucket holding one symbolic event",
+        "sequences of 3 (thorough: 4 on the memory backend) untargeted writes (insert, bulk insert of a one-element list, replace_last; peewee in the quick tier without the plain insert) on one store object from a bucket holding one symbolic event",
         "fixed sequences on one store object and one Bucket object from a bucket holding one event: replace_last or a bare limit-1 read / bulk insert of 2 / replace_last (quick), also with an insert before or in between (thorough)",
         "backends: memory, sqlite, peewee",
     ]
